@@ -22,7 +22,7 @@ PROPS = {
                       'to {a: []} and nine getters raise IndexError.',
     },
     'C06': {
-        'modules': ['contracts.C06_equivalence'],
+        'modules': ['contracts.C06_equivalence', 'contracts.C06_differential'],
         'level': 'proof',
         'level_text': 'Relational (product) contract of the two request classes: one abstract request is presented as a PEP 3333 environ and as an ASGI HTTP '
                       'scope (header list folded by the rule restated in the contract), the REAL falcon.Request.__init__ and falcon.asgi.Request.__init__ run on '
@@ -170,10 +170,12 @@ PROPS = {
         'modules': ['contracts.C05_response'],
         'level': 'proof',
         'level_text': 'Tails of both App.__call__: WSGI start_response monitor and ASGI send-session monitor (INIT/STARTED/DONE) with send and stream failures '
-                      'at every event, body precedence text>data>stream, Content-Length = len(body) for symbolic text/data, bodiless HEAD/1xx/204/304, '
+                      'at every event, body precedence text>data>media>stream (media rendered exactly once by the handler resolved for the response content type), '
+                      'Content-Length = len(body) for symbolic text/data/rendered media, bodiless HEAD/1xx/204/304, '
                       'typeless 204/304, stream closed exactly once on every exit, for arbitrary filled-in responses; symbolic ASGI status codes.',
-        'level_note': 'WSGI statuses are a representative list (lines, ints, HTTPStatus, custom reason, unknown code). SSE branch and media rendering inside '
-                      'the tails are not decided here (C12 covers render_body media). utf-8 encoding is an uninterpreted function.',
+        'level_note': 'WSGI statuses are a representative list (lines, ints, HTTPStatus, custom reason, unknown code). The SSE branch is not decided here; the '
+                      'media handler is a stub returning arbitrary bytes (C11/C12). utf-8 encoding is an uninterpreted function. Recorded known finding: a 204/304 '
+                      'whose body source is resp.media carries the framework default Content-Type.',
     },
     'C12': {
         'modules': ['contracts.C12_media'],
